@@ -13,11 +13,11 @@ from .worlds import INEXACT, MISSING, NANQ, SCALE, f2q
 
 
 # ------------------------------------------------------------------ variables
-def add_data_vars(w: dict, rng: random.Random, *, rich: bool = True, late: bool = False) -> None:
+def add_data_vars(w: dict, rng: random.Random, *, rich: bool = True, late: bool = False, packed: bool = False) -> None:
     """Attach extra dimensions and tagged data variables to a geometric world."""
     tname = "time" if w["conv"] == "shoc_simple" else "t"
     extras = [{"name": "t", "size": 2, "coord": {"name": tname, "kind": "time", "values": [0, 6]}},
-              {"name": "k", "size": rng.choice([2, 3])}]
+              {"name": "k", "size": rng.choice([1, 2, 3])}]        # (a dimension of length 1 must survive every selection)
     if rng.random() < 0.3:
         extras.append({"name": "index", "size": 2})
     w["extras"] = extras
@@ -50,6 +50,10 @@ def add_data_vars(w: dict, rng: random.Random, *, rich: bool = True, late: bool 
     gg = list(g) if rng.random() < .5 else list(reversed(g))
     add("plotv", "face", gg, "f8", 0.2)
     add("pu", "face", list(g), "f8")
+    if packed:
+        # a variable stored packed on disk (int16, scale / offset) whose fill value is ZERO - a legitimate choice
+        add("packed", "face", ["t"] + list(g), "f8", 0.2)
+        specs[-1]["encoding"] = {"dtype": "int16", "scale_factor": 1.0, "add_offset": float(specs[-1]["base"] - 5), "_FillValue": 0}
     add("pv", "face", list(g), "f4", 0.1)
     if late:       # a variable that is added to the dataset later, in place (Mutate events)
         add("late_face", "face", ["t"] + list(g), "f8")
